@@ -5,6 +5,7 @@
 mod c02;
 mod c09;
 mod c10;
+mod c10_lanes;
 mod c11;
 mod c18;
 mod c19;
@@ -70,6 +71,7 @@ fn main() {
         "compile" => c02::main(&args),
         "roles" => c09::main(&args),
         "prove" => c10::main(&args),
+        "npolanes" => c10_lanes::main(&args),
         "alu" => c11::main(&args),
         "determinism" => c18::main(&args),
         "failsafe" => c19::main(&args),
